@@ -980,6 +980,44 @@ pub fn gen_pipe_drop_sweep(rng: &mut Rng) -> Program {
     finish(prog, &g)
 }
 
+/// C12: a read by the consumer (the back-pressure release) is injected at every scheduling point of the context that polls the
+/// input, while items arrive one at a time so that the producer is throttled at the start of a job again and again.
+pub fn gen_pipe_read_sweep(rng: &mut Rng) -> Program {
+    let pool_max = rng.range(1, 2) as usize;
+    let mut g = Gen::new(rng, 1);
+    let (o, s, out) = (0, 0, 0);
+    let depth = g.rng.range(1, 2) as usize;
+    let n_pre = g.rng.range(0, depth as u64 + 1) as usize;
+    let n_late = g.rng.range(1, 3) as usize;
+    let mut t0 = vec![];
+    for i in 0..n_pre {
+        t0.push({ let __k = OpKind::Push { s, item: 10 + i as u32 }; g.op(__k) });
+    }
+    let mut body = vec![];
+    if g.rng.permille(400) {
+        body.push(Step::Yield(1));
+    }
+    t0.push({ let __k = OpKind::Pipe { o, s, depth, out, body, from: None }; g.op(__k) });
+    let mut injector = vec![{ let __k = OpKind::SweepWait; g.op(__k) }, { let __k = OpKind::PollNext { out }; g.op(__k) }, { let __k = OpKind::SweepDone; g.op(__k) }];
+    for _ in 0..g.rng.range(0, 2) {
+        injector.push({ let __k = OpKind::Yield(g.rng.range(1, 3) as u8); g.op(__k) });
+        injector.push({ let __k = OpKind::PollNext { out }; g.op(__k) });
+    }
+    let mut env = vec![];
+    for i in 0..n_late {
+        env.push({ let __k = OpKind::Yield(g.rng.range(1, 3) as u8); g.op(__k) });
+        env.push({ let __k = OpKind::Push { s, item: 10 + (n_pre + i) as u32 }; g.op(__k) });
+    }
+    let mut prog = base_program(pool_max, 1);
+    prog.n_streams = 1;
+    prog.n_outs = 1;
+    prog.mark_on_stream_poll = Some(s);
+    prog.prespawn = g.rng.permille(300);
+    prog.faults.keep_waker_permille = if g.rng.permille(300) { 1000 } else { 0 };
+    prog.phases = vec![Phase { ctl: vec![], threads: vec![t0, injector], env_gates: vec![], env_streams: env }];
+    finish(prog, &g)
+}
+
 /// C11: the last owner of the target is released at every scheduling point of the thread that *notifies* the input
 /// (the pipe upgrades its weak reference there for a moment), while every pool thread is stalled: whatever the pipe does
 /// with an owner it finds itself holding must not depend on the pool.
